@@ -40,6 +40,11 @@ def plan(tier, seed):
         slices, per, w = shape[c]
         for s in range(slices):
             units.append({'kind': c, 'flavour': 'asan', 'lo': s, 'step': slices, 'cases': per, 'weight': w})
+    # long messages / long associated data, sampled faults (see _long_positions)
+    for c in CONSTRUCTIONS:
+        for i in range(2 if quick else 8):
+            units.append({'kind': c, 'flavour': 'asan', 'lo': i * (3 if quick else 1), 'step': 1, 'cases': 1 if 'hmac' in c or 'stream' in c else 2,
+                          'weight': 6, 'long': True})
     # streaming GCM with tags shorter than 16 bytes fed in pieces longer than the tag (kept apart: see C04)
     for t in (12, 13, 14, 15):
         units.append({'kind': 'sm4-gcm-stream', 'flavour': 'asan', 'lo': t - 12, 'step': 4, 'cases': 4 if quick else 24,
@@ -59,7 +64,31 @@ def main(run):
 # ---------------------------------------------------------------------------------------
 # faults
 # ---------------------------------------------------------------------------------------
+_RNG = [None]          # set per unit: sampled positions of long fields
+
+
+def _long_positions(n):
+    """Byte positions of a long field that are worth a fault: both ends, both sides of every power-of-two boundary from 256
+    up (internal chunk sizes are powers of two), and a random sample."""
+    pos = {0, 1, n - 1, n - 2}
+    k = 256
+    while k <= n:
+        pos.update((k - 1, k, k + 1, n - k) if k + 1 < n else (k - 1,))
+        k *= 2
+    rng = _RNG[0]
+    pos.update(rng.randrange(n) for _ in range(40))
+    return sorted(p for p in pos if 0 <= p < n)
+
+
 def _flips(b):
+    if len(b) > 256:
+        rng = _RNG[0]
+        for i in _long_positions(len(b)):
+            bit = rng.randrange(8)
+            m = bytearray(b)
+            m[i] ^= 1 << bit
+            yield i * 8 + bit, bytes(m)
+        return
     for i in range(len(b)):
         for bit in range(8):
             m = bytearray(b)
@@ -77,19 +106,27 @@ def _faults(ctx, nonce, aad, ct, tag, streaming):
         yield 'ciphertext', pos, nonce, aad, v, tag
     for pos, v in _flips(tag):
         yield 'tag', pos, nonce, aad, ct, v
-    for k in range(len(ct)):
+    for k in (range(len(ct)) if len(ct) <= 256 else _long_positions(len(ct))):
         yield 'truncated', k, nonce, aad, ct[:k], tag
     for j, extra in enumerate((b'\x00', bytes([ctx.rng.randint(1, 255)]))):
         yield 'extended', j, nonce, aad, ct + extra, tag
         yield 'extended-front', j, nonce, aad, extra + ct, tag
     if streaming:
         full = ct + tag
-        for k in range(len(full)):
+        for k in (range(len(full)) if len(full) <= 256 else _long_positions(len(full))):
             yield 'stream-truncated', k, nonce, aad, full[:k], b''
         yield 'stream-extended', 0, nonce, aad, full + b'\x00', b''
 
 
+LONG = [4097, 16385, 65537, 8192, 32768 + 5, 100000, 16384, 4096 * 3 + 1]
+
+
 def _case_params(ctx, u, j):
+    _RNG[0] = ctx.rng
+    if u.get('long'):
+        # long messages and long associated data: sizes beyond the internal chunk sizes an implementation may use
+        k = u['lo'] + j
+        return LONG[k % len(LONG)], (0, 13, LONG[(k + 3) % len(LONG)] if 'ccm' not in u['kind'] else 300)[k % 3]
     g = u['lo'] + u['step'] * j
     mlen = (g * 5 + j) % 49
     aadlen = (g * 3 + j // 2) % 21
@@ -227,7 +264,7 @@ _stream_decrypt.last_bound = []
 
 def _streaming_construction(ctx, u, name, mk_ctx, nonce_len_choices, tag_lens, keylen, fin_cap_enc, fin_cap_dec):
     """mk_ctx(direction, key, nonce, aad, taglen) -> mk() for h.Stream."""
-    force = u.get('force_taglen')
+    force = u.get('force_taglen') or (max(tag_lens) if u.get('long') else None)     # long messages: full-length tag, few large pieces
     large = u.get('large_pieces', False)
     for j in range(u['cases']):
         mlen, aadlen = _case_params(ctx, u, j)
@@ -251,6 +288,8 @@ def _streaming_construction(ctx, u, name, mk_ctx, nonce_len_choices, tag_lens, k
         # pieces longer than the tag are only used when the tag has full length, or in the units set apart for it
         limit = None if (large or taglen >= 16 or 'hmac' in name) else taglen
         styles = ['single', 'random', 'bytes'] if not large else ['single', 'random', 'max']
+        if u.get('long'):
+            styles = ['single', 'random']
 
         def attempt(n2, a2, stream, style):
             cuts = _pieces(ctx.rng, len(stream), style, limit if not large else None)
